@@ -33,6 +33,17 @@ fn main() {
         }
         "replay" => replay(args.get(2).map(|s| s.as_str()).unwrap_or_else(|| usage())),
         "worker" => worker(&args[2..]),
+        "goto2" => {
+            // gmc goto2 <main text> <m text> <offset in main>
+            let ws = crate::ana::ws::Workspace::single(&[("main", &args[2]), ("m", &args[3])]);
+            let files = ws.files();
+            let host = ws.host();
+            let an = host.snapshot();
+            let off: u32 = args[4].parse().unwrap();
+            println!("goto {:?}", an.goto_definition(ide::FilePos::new(files[0].id, off.into())));
+            println!("hover {:?}", an.hover(ide::FilePos::new(files[0].id, off.into())));
+            0
+        }
         "goto" => {
             let t = std::fs::read_to_string(&args[2]).unwrap();
             debug_goto(&t, args[3].parse().unwrap());
@@ -62,6 +73,8 @@ fn check(prop: &str, tier: Tier) -> i32 {
         "C02" => props::parser::run(props::parser::Which::C02, tier),
         "C03" => props::recovery::run(tier),
         "C04" => props::grammar::run(tier),
+        "C05" => props::scoping::run(props::scoping::Which::C05, tier),
+        "C18" => props::scoping::run(props::scoping::Which::C18, tier),
         "C06" => props::ide_sweep::run(props::ide_sweep::Which::C06, tier),
         "C07" => props::rename::run_c07(tier),
         "C08" => props::rename::run_c08(tier),
@@ -98,6 +111,8 @@ fn replay(path: &str) -> i32 {
         "C02" => props::parser::replay(props::parser::Which::C02, w),
         "C03" => props::recovery::replay(w),
         "C04" => props::grammar::replay(w),
+        "C05" => props::scoping::replay(props::scoping::Which::C05, w),
+        "C18" => props::scoping::replay(props::scoping::Which::C18, w),
         "C06" => props::ide_sweep::replay(props::ide_sweep::Which::C06, w),
         "C07" => props::rename::replay_c07(w),
         "C08" => props::rename::replay_c08(w),
